@@ -127,4 +127,31 @@ theorem gain_bracket (hv : C02.Valid P c) (hA : 0 < P.nA) (hst : Stoch P)
   haveI : Nonempty (Fin P.nS) := ⟨⟨0, hv.1⟩⟩
   exact bracket (Top P 1) (Top_monoShift P 1 (by norm_num) hst hv.1 hA) h g hg V
 
+/-- **the relative values stay bounded instead of growing with the number of iterations**: from any state satisfying the gain
+    invariant (in particular a fresh solver), after any number n+1 of iterations every relative value is within
+    `sp(V_0 − h)` of `h(i) − h(last) + g`, for every solution (g, h) of the optimality equation — a bound that does not
+    depend on n (plain value iteration at γ = 1 grows like n·g) -/
+theorem rvi_values_bounded (hv : C02.Valid P c) (hA : 0 < P.nA) (hst : Stoch P)
+    (s : SState α) (hs : s.values.length = P.nS) (hinv : s.gain = (s.values.getLast?).getD 0)
+    (h : Fin P.nS → α) (g : α) (hg : ∀ i, Top P 1 h i = h i + g) (n : Nat) (i : Fin P.nS) :
+    haveI : Nonempty (Fin P.nS) := ⟨⟨0, hv.1⟩⟩
+    |toFn P.nS (iterState (rviStep P c 1 ε) (n + 1) s).values i
+        - (h i - h ⟨P.nS - 1, by have := hv.1; omega⟩ + g)| ≤ sp (fun j => toFn P.nS s.values j - h j) := by
+  haveI : Nonempty (Fin P.nS) := ⟨⟨0, hv.1⟩⟩
+  have hT := Top_monoShift P 1 (by norm_num) hst hv.1 hA
+  set r : Fin P.nS := ⟨P.nS - 1, by have := hv.1; omega⟩ with hr
+  have hrec : ∀ m j, toFn P.nS (iterState (rviStep P c 1 ε) (m + 1) s).values j
+      = Top P 1 (toFn P.nS (iterState (rviStep P c 1 ε) m s).values) j - toFn P.nS (iterState (rviStep P c 1 ε) m s).values r := by
+    intro m j
+    set sm := iterState (rviStep P c 1 ε) m s with hsm
+    have hlen : sm.values.length = P.nS := rvi_values_length P c ε hv 1 m s hs
+    have hgain : sm.gain = toFn P.nS sm.values r := by
+      rw [hsm, rvi_invariant_iterates P c ε 1 m s hinv, ← hsm]; exact getLast_eq_toFn P.nS hv.1 _ hlen
+    have hswl : (sweep P c 1 sm.values 0).length = P.nS := C01.sweep_length P c hv 1 _ 0
+    rw [iterState_succ']
+    have hvals : (rviStep P c 1 ε sm).1.values = (sweep P c 1 sm.values 0).map (· - sm.gain) := by simp [rviStep]
+    rw [hvals, toFn_map P.nS _ hswl, sweep_list_eq_Top P c hv 1 sm.values hlen 0, toFn_ofFn, hgain]
+  have := rvi_bounded (Top P 1) hT h g hg r (fun m => toFn P.nS (iterState (rviStep P c 1 ε) m s).values) hrec n i
+  simpa [iterState] using this
+
 end MdpaxV.C04
